@@ -60,6 +60,9 @@ def make_case(ctx, rng, i, ep, mode, big_share, force_size=None):
             req["create"] = True
         if rng.random() < 0.3 and lens:
             req["flush_after"] = [rng.randrange(len(lens))]
+        elif rng.random() < 0.2 and lens:
+            req["vectored"] = True       # all chunks as one gather list (write_vectored)
+            shape += "+vectored"
     return {"i": i, "ep": ep, "mode": mode, "algo": algo, "key": key, "data": data, "req": req,
             "shape": shape, "lens": lens, "declared": ep.endswith("_size") or ep in ("write_hash", "write_hash_algo")}
 
